@@ -979,8 +979,11 @@ class RequestHandler:
             status = 301 if permanent else 302
         else:
             assert isinstance(status, int) and 300 <= status <= 399
+        # Validate the URL before touching the response, so that a redirect that is
+        # rejected (and whose exception the application catches) has no effect.
+        location = self._convert_header_value(utf8(url))
         self.set_status(status)
-        self.set_header("Location", utf8(url))
+        self.set_header("Location", location)
         self.finish()
 
     def write(self, chunk: str | bytes | dict) -> None:
